@@ -725,10 +725,40 @@ func (h *Handler) handlePostIndexAttrDiff(w http.ResponseWriter, r *http.Request
 
 	// Encode response.
 	if err := json.NewEncoder(w).Encode(postIndexAttrDiffResponse{
-		Attrs: attrs,
+		Attrs: attrsWithTypedNumbers(attrs),
 	}); err != nil {
 		h.logger.Printf("response encoding error: %s", err)
 	}
+}
+
+// attrDiffFloat is a float attribute value in an attr diff response. JSON has
+// one number type; a float is always written with a fraction or an exponent so
+// that the receiving node can tell it from an integer (see decodeAttrDiff).
+type attrDiffFloat float64
+
+func (f attrDiffFloat) MarshalJSON() ([]byte, error) {
+	b := strconv.AppendFloat(nil, float64(f), 'g', -1, 64)
+	if !strings.ContainsAny(string(b), ".eEIN") {
+		b = append(b, '.', '0')
+	}
+	return b, nil
+}
+
+// attrsWithTypedNumbers returns a copy of attrs whose float values are
+// attrDiffFloats.
+func attrsWithTypedNumbers(attrs map[uint64]map[string]interface{}) map[uint64]map[string]interface{} {
+	out := make(map[uint64]map[string]interface{}, len(attrs))
+	for id, m := range attrs {
+		c := make(map[string]interface{}, len(m))
+		for k, v := range m {
+			if f, ok := v.(float64); ok {
+				v = attrDiffFloat(f)
+			}
+			c[k] = v
+		}
+		out[id] = c
+	}
+	return out
 }
 
 type postIndexAttrDiffRequest struct {
@@ -959,7 +989,7 @@ func (h *Handler) handlePostFieldAttrDiff(w http.ResponseWriter, r *http.Request
 
 	// Encode response.
 	if err := json.NewEncoder(w).Encode(postFieldAttrDiffResponse{
-		Attrs: attrs,
+		Attrs: attrsWithTypedNumbers(attrs),
 	}); err != nil {
 		h.logger.Printf("response encoding error: %s", err)
 	}
